@@ -22,7 +22,8 @@ Definition generator_facts : Prop :=
   gen_fallthrough_closes_scope = true /\
   gen_block_resets_deferblocks = true /\
   gen_close_defers_in_declaration_order = true /\
-  gen_jump_out_of_defer_rejected = true.
+  gen_jump_out_of_defer_rejected = true /\
+  gen_in_goto_omitted_only_for_last_statement_of_doexpr_block = true.
 
 Lemma generator_facts_hold : generator_facts.
 Proof. unfold generator_facts. repeat split; vm_compute; reflexivity. Qed.
